@@ -232,6 +232,32 @@ pub fn stream_k(cfg: StreamCfg) -> BoxedStrategy<Vec<i64>> {
     raw_segs(cfg).prop_map(move |segs| render(&segs, &cfg)).boxed()
 }
 
+/// A long stream (len_lo..=len_hi values): a grammar stream tiled, every other tile reversed, each tile shifted by a generated
+/// multiple of the grid. Bugs that need a long history (periodic re-synchronisation, counters, wrapped ring buffers, drift)
+/// are out of reach of streams of a few window lengths.
+pub fn long_stream(cfg: StreamCfg, len_lo: usize, len_hi: usize) -> BoxedStrategy<Vec<Rat>> {
+    let base = cfg.len(cfg.min_len.max(8), cfg.max_len.max(16));
+    (stream_k(base), len_lo..=len_hi, -8i64..=8, 0usize..3)
+        .prop_map(move |(ks, len, shift, mode)| {
+            let kcap = cfg.kmax * 8;
+            let mut out: Vec<i64> = Vec::with_capacity(len);
+            let mut tile = 0i64;
+            while out.len() < len {
+                let it: Box<dyn Iterator<Item = &i64>> = if mode == 1 && tile % 2 == 1 { Box::new(ks.iter().rev()) } else { Box::new(ks.iter()) };
+                for k in it {
+                    if out.len() >= len {
+                        break;
+                    }
+                    let v = (k + if mode == 2 { 0 } else { tile * shift }).clamp(-kcap, kcap);
+                    out.push(if cfg.positive { v.abs().max(1) } else { v });
+                }
+                tile += 1;
+            }
+            to_rats(&out, cfg.scale)
+        })
+        .boxed()
+}
+
 /// Window length with boundary bias. `lo` = the view's minimum.
 pub fn window(tier: Tier, lo: usize, hi_quick: usize, hi_thorough: usize) -> BoxedStrategy<usize> {
     let hi = tier.pick(hi_quick, hi_thorough).max(lo);
